@@ -525,3 +525,47 @@ def t_saved_y_value(facts, res, tier):
             res.fail(key, facts.where(d["fn"], d["bad"]["node"]),
                      "%s reads Y as a value (%s) on a path where `saved_y` is not known to be false: when the other operand is indexed through Y the "
                      "register holds the index, not the program's Y" % (d["fn"]["name"], key.split(":")[-1]))
+
+
+# ----------------------------------------------------------------------------- C11 / C09 (a block comment ends at its first */)
+
+
+@rule("T-COMMENT-END", floor=2,
+      text="when a block comment opens on a line, the scanner goes on looking for `*/` in the whole rest of that line: the text it continues "
+           "with is a slice of the line itself, not the remainder of a view that was cut at the first `//` (a URL inside the comment would "
+           "hide the comment's own end and the following lines would be swallowed)")
+def t_comment_end(facts, res, tier):
+    fn = facts.fn("process", "")
+    sites = 0
+    for blk in walk(fn["body"]):
+        if blk.get("k") != "block":
+            continue
+        stmts = blk.get("stmts", [])
+        opens = [s for s in stmts if s.get("k") == "assign" and norm(s["l"]) == "in_multiline_comments" and norm(s["r"]) == "true"]
+        if not opens:
+            continue
+        rem = [s for s in stmts if s.get("k") == "assign" and norm(s["l"]) == "remaining"]
+        if not rem:
+            continue
+        sites += 1
+        key = "T-COMMENT-END:process:%d" % sites
+        rhs = rem[0]["r"]
+        rt = norm(rhs)
+        res.inst(key, True, {"continues_with": rt})
+        if re.match(r"^&?remaining\[", rt):
+            continue
+        # a binder: where does it come from?
+        src = None
+        if rhs.get("k") == "path":
+            # find the let that created the iterator whose next() bound this name: look for split("//") feeding it
+            for n in walk(fn["body"]):
+                if n.get("k") == "let" and n.get("init") is not None and 'split("//")' in norm(n["init"]) and "splitn" in norm(n["init"]):
+                    src = norm(n["init"])
+        if src:
+            res.fail("T-COMMENT-END:process:cut-at-line-comment", facts.where(fn, rem[0]),
+                     "after `/*` the scanner continues with `%s`, a piece of `%s`: everything behind the first `//` of the line is gone, so a `*/` that follows a "
+                     "`//` inside the comment (`/* see http://x */`) is never seen and the comment swallows the following lines" % (rt, src[:70]))
+        else:
+            res.fail(key, facts.where(fn, rem[0]), "cannot show that the text scanned after `/*` is the whole rest of the line (`%s`)" % rt)
+    if sites == 0:
+        raise AnchorMissing("process(): no site opening a block comment found")
